@@ -12,7 +12,8 @@ every `b ≤ 61`, `H = 2^62 - 4` for `b = 62`); they need not be normalised.
    `normalize_inter_value`: the statement of `normalize_inter_value_partial` without the hypothesis
    `NoGap` (`-limbs_offset ≤ res_size`); refuted by `normalize_inter_value_counterexample`.
    `rsh_value` (all `k`): as `rsh_value_partial` without `⌈k/b⌉ ≤ res_size`; refuted by
-   `rsh_value_counterexample`.
+   `rsh_value_counterexample`.  `lsh_value` (`lshCoef .overwrite b k a res` represents `a·2^k`): not proved
+   (correspondence + oracle only); likewise the fused add/sub forms.
    `rsh_assign_value` (all `k`): `vec_znx_rsh_assign` represents `a·2^-k` within one unit; false for
    `⌈k/b⌉ ≥ 2` (`rsh_assign_value_counterexample`) and a panic for `⌈k/b⌉ > size`
    (`rsh_assign_panics_beyond_size`).
@@ -184,6 +185,42 @@ theorem normalize_inter_value_repaired {bits b : Nat} {H : Int} (hr : HeadRoom b
 
 /-- on the witness of the defect the repaired routine returns the correct rounding `0` -/
 example : normalizeInterCoefRepaired 64 3 1 (-4) [-4] = [0] := by decide
+
+/-! ### vec_znx_rsh -/
+
+/-- `vec_znx_rsh` (overwrite form) *is* the same-radix normalisation with offset `−k` (no head-room
+needed: the two routines perform the same steps) -/
+theorem rsh_eq_normalize {b : Nat} (hb : 1 ≤ b) (k : Nat) (a res : List Int) :
+    rshCoef .overwrite b k a res = normalizeInterCoef 64 b res.length (-(k : Int)) a :=
+  rshCoef_overwrite_eq hb k a res
+
+/-- **`vec_znx_rsh`**, outside the gap region (`⌈k/b⌉ ≤ res_size`): balanced digits, `a·2^-k` within one
+unit of the last output limb, exact when `b·a_size + k ≤ b·res_size`. -/
+theorem rsh_value_partial {b : Nat} {H : Int} (hr : HeadRoom 64 b 0 H) (k : Nat) (a res : List Int)
+    (ha : ∀ x ∈ a, |x| ≤ H) (hng : (rshSteps b k).1 ≤ res.length) :
+    (rshCoef .overwrite b k a res).length = res.length ∧
+    (∀ d ∈ rshCoef .overwrite b k a res, Balanced b d) ∧
+    TorusNear (valI b (rshCoef .overwrite b k a res)) (b * res.length) (valI b a) (b * a.length + k) ∧
+    (b * a.length + k ≤ b * res.length →
+      TorusEq (valI b (rshCoef .overwrite b k a res)) (b * res.length) (valI b a) (b * a.length + k)) := by
+  have hb : 1 ≤ b := by have := hr.hlsh; omega
+  rw [rshCoef_overwrite_eq hb]
+  have hng' : NoGap b res.length (-(k : Int)) := by
+    unfold NoGap; rw [splitOffset_neg_natCast hb]; simp only [neg_neg]; exact_mod_cast hng
+  have h := normalize_inter_value_partial hr res.length (-(k : Int)) a ha hng'
+  have e1 : (-(k : Int)).toNat = 0 := by omega
+  have e2 : (-(-(k : Int))).toNat = k := by omega
+  rw [e1, e2, pow_zero, mul_one] at h
+  refine ⟨h.1, h.2.1, h.2.2.1, fun hx => h.2.2.2 ?_⟩
+  push_cast
+  have : ((b * a.length + k : Nat) : Int) ≤ ((b * res.length : Nat) : Int) := by exact_mod_cast hx
+  push_cast at this
+  linarith
+
+example : TorusNear (valI 50 (rshCoef .overwrite 50 57 [2 ^ 62, -(2 ^ 62), 12345] [0, 0])) (50 * 2)
+    (valI 50 [2 ^ 62, -(2 ^ 62), 12345]) (50 * 3 + 57) :=
+  (rsh_value_partial (b := 50) (H := 2 ^ 62) ⟨by norm_num, by norm_num, by norm_num, by norm_num, by norm_num⟩ 57 _ [0, 0]
+    (by intro x hx; simp at hx; rcases hx with rfl | rfl | rfl <;> norm_num) (by decide)).2.2.1
 
 /-! ### vec_znx_normalize_assign -/
 
